@@ -411,12 +411,18 @@ func runReaders(c *simrun.Ctx) *simrun.Violation {
 	// anything that adds up across goroutines (a process-wide depth counter, a
 	// shared stack of scratch buffers) meets sums no single reader produces.
 	deepChain := 0
-	if path := recursionPath(md); path != nil && t.Chance("deep-chain", 1, 64) {
-		deepChain = []int{600, 2000, 3500}[t.Draw("deep-chain-depth", 3)]
+	if path := recursionPath(md); path != nil && t.Chance("deep-chain", 1, 40) {
+		// (100: short enough for every operation, Marshal included - a hundred
+		// distinct nested messages of different sizes in flight at once)
+		deepChain = []int{100, 100, 600, 2000, 3500}[t.Draw("deep-chain-depth", 5)]
 		av = buildChain(md, path, deepChain)
 		st.Add("fault_deep_chain_of_nested_messages", 1)
 	}
 	var canon string
+	mediumChain := deepChain == 100
+	if mediumChain {
+		deepChain = 0 // treated like any other value from here on
+	}
 	if deepChain > 0 {
 		// (the canonical text of a chain is quadratic in its depth: described instead)
 		canon = fmt.Sprintf("chain of %d rounds of %d nested message(s) of %s", deepChain, len(recursionPath(md)), md.FullName())
